@@ -39,6 +39,13 @@ class Gen:
         if t == VEC:
             return "[" + ", ".join(self.lit(INT) for _ in range(r.randint(0, 3))) + "]"
 
+    def arg(self, env, depth):
+        """a call argument: parameters alias the caller's variable, so a loop counter is passed by value"""
+        e = self.expr(env, INT, depth + 1)
+        if e in env and not env[e][1]:
+            return "(%s + 0)" % e
+        return e
+
     def vars_of(self, env, t, mutable=False):
         return [n for n, (ty, mut) in env.items() if ty == t and (mut or not mutable)]
 
@@ -68,7 +75,7 @@ class Gen:
                 fn, n, rt = r.choice(self.funcs)
                 if rt == INT:
                     self.note("call")
-                    return "%s(%s)" % (fn, ", ".join(self.expr(env, INT, depth + 1) for _ in range(n)))
+                    return "%s(%s)" % (fn, ", ".join(self.arg(env, depth) for _ in range(n)))
             if k < 0.8:
                 vv = self.vars_of(env, VEC)
                 if vv:
@@ -161,7 +168,10 @@ class Gen:
             src = r.choice(vv) if vv and r.random() < 0.6 else self.expr(env, VEC, depth + 1)
             e = self.fresh("e")
             self.note("ranged-for")
-            return "for (%s : %s) %s" % (e, src, self.block(dict(env, **{e: (INT, True)}), depth + 1, True, in_fn))
+            benv = dict(env, **{e: (INT, True)})
+            if src in benv:
+                benv[src] = (VEC, False)   # modifying a container while iterating over it is outside every property here
+            return "for (%s : %s) %s" % (e, src, self.block(benv, depth + 1, True, in_fn))
         if k < 0.72 and in_loop:
             self.note("break/continue")
             return "if (%s) { %s }" % (self.cond(env, depth), r.choice(["break", "continue"]))
@@ -189,7 +199,7 @@ class Gen:
         if k < 0.94 and self.funcs:
             fn, n, rt = r.choice(self.funcs)
             self.note("unused-call")
-            return "%s(%s)" % (fn, ", ".join(self.expr(env, INT, depth + 1) for _ in range(n)))
+            return "%s(%s)" % (fn, ", ".join(self.arg(env, depth) for _ in range(n)))
         if k < 0.96 and not deep:
             return self.lambda_stmt(env, depth)
         if k < 0.975:
@@ -222,7 +232,7 @@ class Gen:
         i = self.fresh("i")
         lo, hi = r.randint(0, 2), r.randint(0, 5)
         shape = r.random()
-        benv = dict(env, **{i: (INT, True)})
+        benv = dict(env, **{i: (INT, False)})   # the body may read the counter; only the explicit escapes below write it (monotonically)
         body = self.block(benv, depth + 1, True, in_fn)
         if r.random() < 0.3:
             # the body assigns / captures the counter
@@ -292,7 +302,7 @@ class Gen:
         n = self.fresh("l")
         body = self.block(lenv, depth + 1, False, True, n=r.randint(0, 2))
         body = body[:-2] + ("; " if len(body) > 4 else "") + self.expr(lenv, INT, depth + 1) + " }"
-        s = "var %s = fun[%s](%s) %s; print(%s(%s))" % (n, ", ".join(caps), p, body, n, self.expr(env, INT, depth + 1))
+        s = "var %s = fun[%s](%s) %s; print(%s(%s))" % (n, ", ".join(caps), p, body, n, self.arg(env, depth))
         if caps and r.random() < 0.4:
             mv = [c for c in caps if env[c][1]]
             if mv:
